@@ -80,15 +80,6 @@ theorem arc_fuel_suffices (ds : Doms) (cs : List Con) (hwf : WFc ds cs) :
 
 theorem solve_state_ok (cmds : List Cmd) (s : Sys) (h : build cmds = .ok s) : s.WF := (build_spec cmds s h).2
 
-private theorem too_many (s : Sys) (wf : s.WF) (h : ¬ s.cons.length ≤ maxCons) : s.solve = .tooMany := by
-  unfold Sys.solve
-  have h0 : s.doms.length ≠ 0 := by
-    intro h0
-    cases hc : s.cons with
-    | nil => rw [hc] at h; simp [maxCons] at h
-    | cons c _ => have := (wf.wfc c (by rw [hc]; exact List.mem_cons_self ..)).1; omega
-  rw [if_neg h0, if_pos (by omega)]
-
 /-- The model of `solve` is total: it is never stuck (out of fuel / outside the bit-set contract), for *every* call
     sequence.  Outside the supported limits it reports which call is outside the contract. -/
 theorem solve_total (cmds : List Cmd) : solveCmds cmds ≠ .stuck := by
@@ -101,7 +92,7 @@ theorem solve_total (cmds : List Cmd) : solveCmds cmds ≠ .stuck := by
     by_cases hm : s.cons.length ≤ maxCons
     · have := Sys.solve_spec s wf hm
       intro h; rw [h] at this; exact this
-    · rw [too_many s wf hm]; simp
+    · rw [Sys.solve_tooMany s wf hm]; simp
 
 /-- **Soundness**: whatever `solve` returns as a solution satisfies every range, parity restriction, tightening and
     constraint — for every call sequence and every preference assignment. -/
@@ -117,7 +108,7 @@ theorem solve_sound (cmds : List Cmd) (τ : Asg) (n : Nat) (ds : Doms) (h : solv
     · have := Sys.solve_spec s wf hm
       rw [h] at this
       exact (build_meaning cmds s hb τ).1 this.1
-    · rw [too_many s wf hm] at h; cases h
+    · rw [Sys.solve_tooMany s wf hm] at h; cases h
 
 /-- An "unsolvable" verdict (from arc consistency or from the exhausted search) is correct: no assignment satisfies
     the calls. -/
@@ -139,7 +130,7 @@ theorem solve_unsat_correct (cmds : List Cmd) (h : (solveCmds cmds).isUnsat = tr
       | err _ _ => rw [hr] at h; cases h
       | tooMany => rw [hr] at h; cases h
       | stuck => rw [hr] at h; cases h
-    · rw [too_many s wf hm] at h; cases h
+    · rw [Sys.solve_tooMany s wf hm] at h; cases h
 
 /-- Inside the supported limits the solver always answers "solvable" or "unsolvable" (never an error). -/
 theorem solve_decides (cmds : List Cmd) (hs : Supported cmds = true) :
@@ -166,24 +157,6 @@ theorem solve_iff (cmds : List Cmd) (hs : Supported cmds = true) :
     | sat τ n ds => exact ⟨τ, solve_sound cmds τ n ds hr⟩
     | _ => rw [hr] at h; cases h
   · exact solve_complete cmds hs
-
-/-- forget the value preference of a call -/
-def erasePref : Cmd → Cmd
-  | .addVar _ lo hi => .addVar .small lo hi
-  | c => c
-
-private theorem erase_props (c : Cmd) (n : Nat) (σ : Asg) :
-    (erasePref c).okAt n = c.okAt n ∧ (erasePref c).nv = c.nv ∧ (erasePref c).nc = c.nc ∧ ((erasePref c).holds n σ ↔ c.holds n σ) := by
-  cases c <;> simp [erasePref, Cmd.okAt, Cmd.nv, Cmd.nc, Cmd.holds]
-
-private theorem erase_list : ∀ (cmds : List Cmd) (n : Nat) (σ : Asg),
-    okFrom n (cmds.map erasePref) = okFrom n cmds ∧ nConsOf (cmds.map erasePref) = nConsOf cmds ∧
-    nVarsOf (cmds.map erasePref) = nVarsOf cmds ∧ (SatFrom n (cmds.map erasePref) σ ↔ SatFrom n cmds σ)
-  | [], n, σ => by simp [okFrom, nConsOf, nVarsOf, SatFrom]
-  | c :: r, n, σ => by
-    obtain ⟨a1, a2, a3, a4⟩ := erase_props c n σ
-    obtain ⟨b1, b2, b3, b4⟩ := erase_list r (n + c.nv) σ
-    simp only [List.map_cons, okFrom, nConsOf, nVarsOf, SatFrom, a1, a2, a3, a4, b1, b2, b3, b4, and_self]
 
 /-- **The value-preference order never affects the verdict**: two call sequences that differ only in the `PrefVal`
     arguments are both inside (or both outside) the limits and get the same solvable / unsolvable answer. -/
@@ -216,7 +189,7 @@ theorem arc_sound (cmds : List Cmd) (s : Sys) (hb : build cmds = .ok s) (hn : s.
     rcases h with h | h
     · rw [h] at this; exact (this.2 hn).2 σ
     · rw [h] at this; exact this.2.2 σ
-  · rw [too_many s wf hm] at h; rcases h with h | h <;> cases h
+  · rw [Sys.solve_tooMany s wf hm] at h; rcases h with h | h <;> cases h
 
 /-- Inside the limits no `int` expression the C++ evaluates can overflow: every stored offset `c` satisfies
     |c| ≤ 2^31−48 (so `-offs` in `addIneq` is fine), and `getMaxBit()+c`, `getMinBit()-c`, `values[v2]+c` stay in range. -/
